@@ -993,18 +993,14 @@ func (p *Parser) parseRegexpLiteral() ast.Expression {
 	if strings.HasPrefix(val, "(?") {
 		val = strings.TrimPrefix(val, "(?")
 
-		i := 0
-		for i < len(val) {
-
-			if val[i] == ')' {
-
-				val = val[i+1:]
-				break
-			} else {
-				flags += string(val[i])
-			}
-
-			i++
+		// Everything up to the closing bracket is kept as it was
+		// written (byte for byte: the text may hold characters of
+		// more than one byte).
+		if i := strings.IndexByte(val, ')'); i >= 0 {
+			flags = val[:i]
+			val = val[i+1:]
+		} else {
+			flags = val
 		}
 	}
 	return &ast.RegexpLiteral{Token: p.curToken, Value: val, Flags: flags}
